@@ -319,14 +319,14 @@ def _names(g):
 def mech(groups, pre, marker, got, exp):
     """mechanism class of a disagreement"""
     diff = got ^ exp
-    for nm, g in zip(("rule", "detection_item", "field_name"), groups):
-        if g is not None and g[0] == "list" and not g[1] and g[3] and nm != "rule":
-            return f"{nm}-negation-flag-without-conditions-never-applies"
     fn = groups[2]
     if fn is not None and "app_m0" in _names(fn) and "m0" in pre and marker == "suffix":
         return "field-applied-tracking-moved-by-fields-list-rename"
     if fn is not None and _has_neg(fn) and diff <= {("field", "sel", 2), ("ref", "sel", 2)}:
         return "field-name-negation-on-item-with-field-reference"
+    for nm, g in zip(("rule", "detection_item", "field_name"), groups):
+        if g is not None and g[0] == "list" and not g[1] and nm != "rule":
+            return f"{nm}-empty-condition-list-never-applies"
     parts = []
     for nm, g in zip(("rule", "di", "fn"), groups):
         if g is not None:
